@@ -24,7 +24,7 @@ ASSUMPTIONS = [
     'rtol 1e-10 on altitude/gravity/scale height against the pure-python reference',
 ]
 RULE = RULE + ' ' + 'Also: levels 1-8 ulp apart, array profiles read from text files (own column, header rows, unit, top-first with reverse=True), temperatures as an integer array; cases stratified by part. Round 9: the planet-change history moves mass and radius together, the mass alone or the radius alone (a third each). Round 11: the pressure-range history moves both ends, the top alone or the bottom alone (a third each).'
-REQUIRED = {'re-ranged:min-only': 0.04, 're-ranged:max-only': 0.04, 'planet-changed:mass-only': 0.08, 'rejected-point-then-valid': 0.05, 'temperatures:integer-array': 0.08, 'array:from-file': 0.008, 'array:from-file,top-first': 0.008, 'levels:ulp-spaced': 0.025, 'part:function': 0.2, 'part:model-simple': 0.2, 'part:model-array': 0.08, 'layers:1': 0.01}
+REQUIRED = {'re-ranged:min-only': 0.04, 're-ranged:max-only': 0.04, 'planet-changed:mass-only': 0.08, 'rejected-point-then-valid': 0.03, 'temperatures:integer-array': 0.08, 'array:from-file': 0.008, 'array:from-file,top-first': 0.008, 'levels:ulp-spaced': 0.025, 'part:function': 0.2, 'part:model-simple': 0.2, 'part:model-array': 0.08, 'layers:1': 0.01}
 
 MJUP = 1.2668653e17 / 6.6743e-11
 RJUP = 71492000.0
